@@ -335,7 +335,8 @@ pub(in crate::sql) fn except(
         let with = ctx.anchor.relation_instances.get(with).unwrap();
 
         let top = ctx.anchor.determine_select_columns(&res[0..res.len() - 2]);
-        let bottom = with.table_ref.columns.iter().map(|(_, c)| *c).collect_vec();
+        // (all columns of the relation, not only those that survived prune_inputs)
+        let bottom = with.original_cids.clone();
 
         // join_cond must be a join over all columns
         // (this could be loosened to check only the relation key)
@@ -424,7 +425,8 @@ pub(in crate::sql) fn intersect(
         };
         let with = ctx.anchor.relation_instances.get_mut(with).unwrap();
 
-        let bottom = with.table_ref.columns.iter().map(|(_, c)| *c).collect_vec();
+        // (all columns of the relation, not only those that survived prune_inputs)
+        let bottom = with.original_cids.clone();
         let top = ctx.anchor.determine_select_columns(&res[0..res.len() - 1]);
 
         // join_cond must be a join over all columns
